@@ -101,7 +101,8 @@ def fn_correspondence(chk, model, drv, xvc):
         for kind, cwd, a, st in cases:
             pre = (cwd + "/") if cwd else ""
             if kind == "store":
-                ra = a if not cwd else ([pre] if a is None else [pre + t for t in a])
+                # no targets -- no list, or the empty list remove / untrack hand over -- is "the current directory"
+                ra = a if not cwd else ([pre] if not a else [pre + t for t in a])
                 blines.append("store %s - %s %s" % (rootabs, tg(ra), hl(st)))
             elif kind == "disk":
                 ra = a if not cwd else ([pre] if a is None else [pre + t for t in a])
@@ -124,7 +125,6 @@ def fn_correspondence(chk, model, drv, xvc):
         b = bout[i] if i < len(bout) else "<missing>"
         dist[kind] += 1; dist["cwd_root"] += (cwd == ""); dist["no_targets"] += (a is None)
         dist["selected_nonempty"] += (r.startswith("ok ") and r != "ok -"); dist["err_or_panic"] += (not r.startswith("ok"))
-        # [] targets from a subdirectory: Some([]) is rebased to Some([]) by the map, the spec has nothing to prefix
         nontrivial = cwd != "" and r.startswith("ok ") and r != "ok -"
         chk.count(("fn", kind, cwd, tuple(a) if isinstance(a, list) else a, tuple(st or ())), nontrivial)
         if i < 3:
@@ -164,7 +164,7 @@ def gen_scenario(rng, idx):
     cwd = rng.choice(["d", "d", "d/e"])
     rel = {"d": ["a.txt", "b.dat", "e/", "e/f.txt", "*.txt", "e/*.txt", "u.txt", "e"], "d/e": ["f.txt", "g.txt", "*.txt", "*"]}[cwd]
     kind = rng.choice(["track", "carry-in", "recheck", "list", "copy", "move", "remove", "untrack", "track", "recheck", "list"])
-    nt = rng.random() < 0.2 and kind in ("track", "carry-in", "recheck", "list")
+    nt = rng.random() < (0.35 if kind in ("remove", "untrack") else 0.2) and kind in ("track", "carry-in", "recheck", "list", "remove", "untrack")
     ts = [] if nt else rng.sample(rel, rng.randint(1, 2))
     opts = []
     dest = None
@@ -188,9 +188,9 @@ def gen_scenario(rng, idx):
             opts.append("--no-recheck")
     elif kind == "remove":
         opts.append("--from-cache")
-        ts = [rng.choice(["a.txt", "e/f.txt", "*.txt"] if cwd == "d" else ["f.txt", "*.txt"])]
+        ts = [] if nt else [rng.choice(["a.txt", "e/f.txt", "*.txt"] if cwd == "d" else ["f.txt", "*.txt"])]
     elif kind == "untrack":
-        ts = [rng.choice(["a.txt", "e/f.txt", "b.dat"] if cwd == "d" else ["f.txt", "g.txt"])]
+        ts = [] if nt else [rng.choice(["a.txt", "e/f.txt", "b.dat"] if cwd == "d" else ["f.txt", "g.txt"])]
     return {"idx": idx, "method": method, "tracked": sorted(tracked), "edits": [[e[0], e[1]] + ([e[2].hex()] if len(e) > 2 else []) for e in edits],
             "cwd": cwd, "kind": kind, "opts": opts, "targets": ts, "dest": dest}
 
@@ -227,7 +227,9 @@ def run_variant(xvc, sc, variant):
         pre = sc["cwd"] + "/" if sc["cwd"] else ""
         ts, dest = list(sc["targets"]), sc["dest"]
         if variant == "root":
-            ts = [pre + x for x in ts] if ts else ([pre] if pre and sc["kind"] in ("track", "carry-in", "recheck", "list") else [])
+            # "with no targets it applies to the files under the current directory": for every command, also for remove
+            # and untrack (which hand an EMPTY list to the target resolution, not no list)
+            ts = [pre + x for x in ts] if ts else ([pre] if pre else [])
             # the corresponding root-relative destination is the NORMALISED path ("../o/" in d/e is "d/o/"):
             # XvcPath::new resolves "." and ".." (targets are glob strings and are rebased textually)
             if dest:
